@@ -27,6 +27,7 @@ struct Obs {
     gate_cv: Condvar,
     connect_gate: AtomicBool, // connect hook parks until the gate opens
     connect_panic: AtomicBool,
+    missing_in_hook: AtomicBool, // a disconnect callback registered before the registry found the peer or its aliases already gone
     late_alias: AtomicU64, // 0 = alias() not reached, 1 = returned false, 2 = returned true
 }
 impl Obs {
@@ -93,8 +94,11 @@ fn build_server(obs: &Arc<Obs>, reg: &PeerRegistry) -> WebSocketServer {
     // the per-connection outbound queue is varied too (256 = default, 2, 1)
     static BUILDS: AtomicU64 = AtomicU64::new(0);
     let outcap = [256usize, 2, 1][(BUILDS.fetch_add(1, Ordering::SeqCst) % 3) as usize];
+    let (o6, reg6) = (obs.clone(), reg.clone());
     WebSocketServer::new(router)
         .with_outbound_capacity(outcap)
+        // registered BEFORE the registry is attached: it runs first and must still find the peer and its aliases
+        .on_peer_disconnect(move |id| { if reg6.get(id).is_none() || reg6.aliases_for(id).is_empty() { o6.missing_in_hook.store(true, Ordering::SeqCst); } })
         .with_peer_registry(reg.clone())
         .on_peer_connect(move |peer| {
             oc.connects.fetch_add(1, Ordering::SeqCst);
@@ -330,7 +334,7 @@ pub fn run(a: &Args) -> i32 {
             "disconnect_before_connect": ob.disconnect_before_connect.load(Ordering::SeqCst),
             "present_during": present_during, "present_after": !reg.is_empty(), "alias_after": (0..64u64).any(|p| reg.get_by(format!("alias-{p}").as_str()).is_some()) || reg.get_by("late-alias").is_some()
                 || (0..64u64).any(|p| !reg.aliases_for(repe::PeerId(p)).is_empty() || reg.key_for(repe::PeerId(p)).is_some()),
-            "late_alias": ob.late_alias.load(Ordering::SeqCst), "prompt_disconnects": prompt_disconnects,
+            "late_alias": ob.late_alias.load(Ordering::SeqCst), "prompt_disconnects": prompt_disconnects, "present_in_disconnect_hook": !ob.missing_in_hook.load(Ordering::SeqCst),
             "hello_first": hello_first && !hello_after_response,
             "off_started": ob.off_started.load(Ordering::SeqCst), "off_saw_cancel": ob.off_saw_cancel.load(Ordering::SeqCst), "stubborn": cause == "drain_abort"}));
         server_task.abort();
@@ -386,7 +390,7 @@ pub fn run(a: &Args) -> i32 {
             // if the precondition (A's sink closed while A still registered) was not reached, the scenario says nothing
             "present_during": resolves_to_b || !reached, "present_after": !reg.is_empty(),
             "alias_after": reg.get_by("session").is_some() || (0..64u64).any(|p| !reg.aliases_for(repe::PeerId(p)).is_empty()),
-            "late_alias": 0, "precondition_reached": reached, "prompt_disconnects": 2,
+            "late_alias": 0, "precondition_reached": reached, "prompt_disconnects": 2, "present_in_disconnect_hook": !ob.missing_in_hook.load(Ordering::SeqCst),
             "hello_first": hello_first, "off_started": false, "off_saw_cancel": false, "stubborn": false}));
         server_task.abort();
     }
